@@ -486,6 +486,18 @@ func runC08(c *Ctx) {
 				call("GcsFromNBytesAndQuery", append(append([]byte{p}, nn...), randBytes(r, L)...))
 			}
 		}
+		// unterminated unary runs: tails of 0xff bytes of every length, behind nothing, behind a partial byte, behind a
+		// well-formed value; N over-claims
+		for k := 1; k <= 9; k++ {
+			ff := bytes.Repeat([]byte{0xff}, k)
+			for _, head := range [][]byte{{}, {0x01}, {0xfe}, {0x00, 0x7f}, {0x80, 0x00, 0x01}} {
+				body := append(append([]byte{}, head...), ff...)
+				for _, n := range []byte{1, 2, 3, 200} {
+					call("GcsFromNBytesAndQuery", append([]byte{p, n}, body...))
+					call("GcsFromBytesAndQuery", append([]byte{p, 0, 0, 0, n}, body...))
+				}
+			}
+		}
 		for _, n := range []uint32{0, 1, 1 << 16, 1 << 22, 1<<32 - 1} {
 			for _, body := range [][]byte{{}, {0}, {0xff, 0xff, 0xff, 0xff}, randBytes(r, 8)} {
 				call("GcsFromBytesAndQuery", append([]byte{p, byte(n >> 24), byte(n >> 16), byte(n >> 8), byte(n)}, body...))
